@@ -57,5 +57,59 @@ __CPROVER_ensures((OLD(P1_M->m_body.ch_len) >= 4 && (int) g_u32 <= P1_S->ttl.v &
 __CPROVER_ensures(LMQ_WF_SCALAR(&P1_S->rmq))
 ;
 #endif
+
+/* ---- the hop count goes up by one on every traversal (C08/C13) ---- */
+static void pair1_pipe_send(pair1_pipe *p, nni_msg *m)
+__CPROVER_requires(__CPROVER_is_fresh(p, sizeof(struct pair1_pipe)) && __CPROVER_is_fresh(p->pair, sizeof(struct pair1_sock)))
+__CPROVER_requires(__CPROVER_is_fresh(m, sizeof(struct nng_msg)) && m->m_header_len == 4 && m->m_refcnt.v == 1)
+__CPROVER_requires(BE32(HDR(m)) < 0xffffffffu)
+__CPROVER_assigns(p->aio_send.a_msg, p->pair->wr_ready, __CPROVER_object_from(m->m_header_buf), g_pipe_send_calls, g_pipe_send_pipe, g_pipe_send_aio, g_pipe_send_msg)
+__CPROVER_ensures(BE32(HDR(m)) == OLD_BE32(HDR(m)) + 1 && m->m_header_len == 4)
+__CPROVER_ensures(p->aio_send.a_msg == m && !p->pair->wr_ready)
+__CPROVER_ensures(g_pipe_send_calls == OLD(g_pipe_send_calls) + 1 && g_pipe_send_pipe == p->pipe && g_pipe_send_aio == &p->aio_send && g_pipe_send_msg == m)
+;
+
+/* ---- one peer at a time (C08): a second connection is refused while the first is attached ---- */
+static int pair1_pipe_start(void *arg)
+__CPROVER_requires(__CPROVER_is_fresh(arg, sizeof(struct pair1_pipe)))
+__CPROVER_requires(__CPROVER_is_fresh(P1_S, sizeof(struct pair1_sock)) && VP_NO_LOCK_HELD)
+__CPROVER_assigns(P1_S->p, P1_S->rd_ready, VP_PROTO_GHOST_LIST, VP_SYNC_GHOSTS, g_p1_sched_calls)
+__CPROVER_ensures(VP_NO_LOCK_HELD)
+__CPROVER_ensures(g_pipe_peer != PAIR1_PEER ==> (RV == NNG_EPROTO && P1_S->p == OLD(P1_S->p) && g_pipe_recv_calls == OLD(g_pipe_recv_calls)))
+__CPROVER_ensures((g_pipe_peer == PAIR1_PEER && OLD(P1_S->p) != NULL) ==> (RV == NNG_EBUSY && P1_S->p == OLD(P1_S->p) && g_pipe_recv_calls == OLD(g_pipe_recv_calls) && g_p1_sched_calls == OLD(g_p1_sched_calls)))
+__CPROVER_ensures((g_pipe_peer == PAIR1_PEER && OLD(P1_S->p) == NULL) ==> (RV == 0 && P1_S->p == P1_P && !P1_S->rd_ready && g_pipe_recv_calls == OLD(g_pipe_recv_calls) + 1 && g_pipe_recv_pipe == P1_P->pipe && g_pipe_recv_aio == &P1_P->aio_recv && g_p1_sched_calls == OLD(g_p1_sched_calls) + 1))
+;
+
+/* ASSUMED here (stub with a ghost counter; the body is not under contract yet) */
+static void pair1_send_sched(pair1_sock *s)
+__CPROVER_assigns(g_p1_sched_calls)
+__CPROVER_ensures(g_p1_sched_calls == OLD(g_p1_sched_calls) + 1)
+;
+
+/* ---- socket send (C08 back-pressure, C15 non-blocking rule, C03 ownership) ---- */
+#define P1_SM (aio->a_msg)
+#define P1_SS ((pair1_sock *) arg)
+static void pair1_sock_send(void *arg, nni_aio *aio)
+__CPROVER_requires(P1_SOCK_PRE(P1_SS) && VP_NO_LOCK_HELD)
+__CPROVER_requires(__CPROVER_is_fresh(aio, sizeof(nni_aio)) && VP_AIO_NOT_QUEUED(aio))
+__CPROVER_requires(__CPROVER_is_fresh(P1_SM, sizeof(struct nng_msg)) && P1_SM->m_header_len <= MSG_HDRCAP && P1_SM->m_refcnt.v == 1)
+__CPROVER_requires(P1_SS->wr_ready ==> (__CPROVER_is_fresh(P1_SS->p, sizeof(struct pair1_pipe)) && __CPROVER_pointer_in_range_dfcc(P1_SS, P1_SS->p->pair, P1_SS)))
+__CPROVER_requires(g_qb.n < 8)
+/* stable state: senders wait only when the pipe is busy and the buffer is full */
+__CPROVER_requires(g_qb.n == 0 || (!P1_SS->wr_ready && P1_SS->wmq.lmq_len >= P1_SS->wmq.lmq_cap))
+__CPROVER_assigns(aio->a_msg, aio->a_result, aio->a_count, P1_SS->wr_ready, P1_SS->wmq.lmq_put, P1_SS->wmq.lmq_len, __CPROVER_object_whole(P1_SS->wmq.lmq_msgs), __CPROVER_object_from(P1_SM->m_header_buf), P1_SM->m_header_len, VP_PROTO_GHOST_LIST, VP_SYNC_GHOSTS)
+__CPROVER_assigns(P1_SS->wr_ready: P1_SS->p->aio_send.a_msg)
+__CPROVER_ensures(VP_NO_LOCK_HELD && VP_AIOQS_OK && LMQ_WF_SCALAR(&P1_SS->wmq))
+/* raw mode: a header that is not exactly one hop word below 0xff is refused, message stays with the caller */
+__CPROVER_ensures((P1_SS->raw && (OLD(P1_SM->m_header_len) != 4 || OLD_BE32(HDR(P1_SM)) >= 0xff)) ==> (g_fin_calls == OLD(g_fin_calls) + 1 && g_fin_last == aio && g_fin_last_rv == NNG_EPROTO && aio->a_msg == OLD(P1_SM) && g_pipe_send_calls == OLD(g_pipe_send_calls) && P1_SS->wmq.lmq_len == OLD(P1_SS->wmq.lmq_len) && g_start_calls == OLD(g_start_calls)))
+/* pipe ready: goes on the wire now with hop count +1 (cooked: 0 + 1); completed with success; timeout not consulted */
+__CPROVER_ensures((!(P1_SS->raw && (OLD(P1_SM->m_header_len) != 4 || OLD_BE32(HDR(P1_SM)) >= 0xff)) && OLD(P1_SS->wr_ready)) ==> (g_pipe_send_calls == OLD(g_pipe_send_calls) + 1 && g_pipe_send_msg == OLD(P1_SM) && OLD(P1_SM)->m_header_len == 4 && BE32(HDR(OLD(P1_SM))) == (P1_SS->raw ? OLD_BE32(HDR(P1_SM)) + 1 : 1) && g_fin_calls == OLD(g_fin_calls) + 1 && g_fin_last == aio && g_fin_last_rv == 0 && aio->a_msg == NULL && g_start_calls == OLD(g_start_calls) && P1_SS->wmq.lmq_len == OLD(P1_SS->wmq.lmq_len)))
+/* pipe busy, room in the buffer: queued at the tail; completed with success; timeout not consulted */
+__CPROVER_ensures((!(P1_SS->raw && (OLD(P1_SM->m_header_len) != 4 || OLD_BE32(HDR(P1_SM)) >= 0xff)) && !OLD(P1_SS->wr_ready) && OLD(P1_SS->wmq.lmq_len) < P1_SS->wmq.lmq_cap) ==> (g_pipe_send_calls == OLD(g_pipe_send_calls) && P1_SS->wmq.lmq_len == OLD(P1_SS->wmq.lmq_len) + 1 && LMQ_VIEW(&P1_SS->wmq, P1_SS->wmq.lmq_len - 1) == OLD(P1_SM) && g_fin_calls == OLD(g_fin_calls) + 1 && g_fin_last == aio && g_fin_last_rv == 0 && aio->a_msg == NULL && g_start_calls == OLD(g_start_calls)))
+/* must wait (back-pressure, nothing discarded): started once; refused => still the caller's message, not queued */
+__CPROVER_ensures((!(P1_SS->raw && (OLD(P1_SM->m_header_len) != 4 || OLD_BE32(HDR(P1_SM)) >= 0xff)) && !OLD(P1_SS->wr_ready) && OLD(P1_SS->wmq.lmq_len) >= P1_SS->wmq.lmq_cap) ==> (g_start_calls == OLD(g_start_calls) + 1 && g_start_last == aio && g_fin_calls == OLD(g_fin_calls) && g_pipe_send_calls == OLD(g_pipe_send_calls) && P1_SS->wmq.lmq_len == OLD(P1_SS->wmq.lmq_len) && aio->a_msg == OLD(P1_SM) && g_qb.n == OLD(g_qb.n) + (g_aio_start_ok ? 1 : 0)))
+/* C15: the send descriptor is cleared exactly when nothing more can be accepted */
+__CPROVER_ensures((g_fin_calls > OLD(g_fin_calls) && g_fin_last_rv == 0 && P1_SS->wmq.lmq_len >= P1_SS->wmq.lmq_cap && !P1_SS->wr_ready) ==> !g_pollw)
+;
 /* clang-format on */
 #endif
